@@ -135,6 +135,22 @@ func (s *State) lookupStore(path string) (storeEnt, bool) {
 	return storeEnt{}, false
 }
 
+// ReadLocal returns the canonical value last stored at a local location on
+// this path, following struct copies between locals.
+func (s *State) ReadLocal(path string) (string, bool) {
+	for i := 0; i < 6; i++ {
+		e, ok := s.lookupStore(path)
+		if !ok {
+			return path, i > 0
+		}
+		path = e.ce.S + e.suffix
+		if !strings.HasPrefix(path, "new@") || e.suffix == "" {
+			return path, true
+		}
+	}
+	return path, true
+}
+
 func (s *State) key() string {
 	var sb strings.Builder
 	fmt.Fprintf(&sb, "b%d|", s.blk.Index)
@@ -230,6 +246,9 @@ type Hooks struct {
 	Label func(st *State, in ssa.Instruction) string
 	// Assume lets a rule constrain the initial state.
 	Assume func(st *State)
+	// BackEdge is called when a path is about to re-enter a loop header, before
+	// the iteration's facts are forgotten (per-iteration obligations).
+	BackEdge func(st *State, from, header *ssa.BasicBlock)
 }
 
 type LockProblem struct {
@@ -372,8 +391,20 @@ func (ex *Explorer) AtomOf(st *State, v ssa.Value) *Atom {
 			return at
 		}
 	}
+	if call, ok := v.(*ssa.Call); ok {
+		if fn := call.Call.StaticCallee(); fn != nil && reflexiveTrue[fn.String()] && len(call.Call.Args) == 2 {
+			if ex.Canon(st, call.Call.Args[0]).S == ex.Canon(st, call.Call.Args[1]).S {
+				return &Atom{Const: bptr(true)}
+			}
+		}
+	}
 	ce := ex.Canon(st, v)
 	return &Atom{Kind: "bool", X: ce.S, Deps: ce.Deps, Reads: ce.Reads}
+}
+
+// reflexiveTrue: pure equality predicates; f(x, x) is true.
+var reflexiveTrue = map[string]bool{
+	"(net.IP).Equal": true, "bytes.Equal": true,
 }
 
 func mergeDeps(a, b map[ssa.Value]bool) map[ssa.Value]bool {
@@ -731,6 +762,9 @@ func (ex *Explorer) enter(st *State, pred, b *ssa.BasicBlock) {
 	back := pred != nil && ex.Info.BackEdge[[2]int{pred.Index, b.Index}]
 	st.blk, st.pred = b, pred
 	if back {
+		if ex.Hooks.BackEdge != nil {
+			ex.Hooks.BackEdge(st, pred, b)
+		}
 		ex.forgetLoop(st, b)
 		return
 	}
@@ -889,5 +923,20 @@ func (ex *Explorer) NilState(st *State, v ssa.Value) (int, *Fact) {
 	if f, ok := st.live["nil:"+ce.S]; ok {
 		return b2i(f.Val), f
 	}
+	// (T, error) convention: T is valid (non-nil) once the error was found nil
+	if e, ok := r.(*ssa.Extract); ok {
+		if call, ok := e.Tuple.(*ssa.Call); ok {
+			res := call.Call.Signature().Results()
+			last := res.Len() - 1
+			if last >= 1 && e.Index < last && isErrorT(res.At(last).Type()) {
+				k := "nil:" + ex.Canon(st, call).S + fmt.Sprintf("#%d", last)
+				if f, ok := st.hist[k]; ok && f.Val {
+					return 0, f
+				}
+			}
+		}
+	}
 	return -1, nil
 }
+
+func isErrorT(t types.Type) bool { return types.Identical(t, types.Universe.Lookup("error").Type()) }
